@@ -20,6 +20,7 @@ import (
 	"verif/seq/props/c17"
 	"verif/seq/props/c18"
 	"verif/seq/props/c19"
+	"verif/seq/props/c20"
 )
 
 type entry struct {
@@ -41,6 +42,7 @@ var table = map[string]entry{
 	"C17": {"exploration", c17.Run},
 	"C18": {"exploration", c18.Run},
 	"C19": {"exploration", c19.Run},
+	"C20": {"model_checking", c20.Run},
 }
 
 func main() {
